@@ -5,7 +5,9 @@ package pts
 
 // C14: a PTS file that ends before the declared number of points is rejected.
 //
-// The declared count is the first line; every following line is one point.  "exit" clauses are
+// The declared count is the first line; every following line is one point with the same number of columns as the
+// first one (a last line cut at a token boundary has fewer), so the intensity / colour arrays are returned only when
+// every point supplied them.  "exit" clauses are
 // postconditions over the function's own locals at every return (checked, never assumed by callers).
 
 //@ func ReadPointCloud
@@ -17,6 +19,8 @@ package pts
 //@     invariant 0 <= curLine && curLine <= parsedCount
 //@     invariant len(readVerts) == parsedCount && len(readColors) == parsedCount && len(intensity) == parsedCount
 //@     invariant fresh(readVerts) && fresh(readColors) && fresh(intensity)
+//@     invariant columns_agree: curLine > 0 ==> fieldCount >= 3 && (readIntensity <==> fieldCount > 3) && (readColor <==> fieldCount > 6)
+//@     invariant no_flags_before_first_line: curLine == 0 ==> !readIntensity && !readColor
 
 //@ func ParseVec3 frameonly
 //@   props C14
